@@ -183,7 +183,7 @@ def cargo(d, args, timeout=1500):
 
 
 def failing_modules(log):
-    return sorted(set(re.findall(r"--> src/(m\d+|k\d+)\.rs", log)))
+    return sorted(set(re.findall(r"--> src/(m\d+|k\d+|o\d+)\.rs", log)))
 
 
 def c09(ck):
@@ -293,17 +293,41 @@ def c09(ck):
             known_mods.append((cid, t, code, mj["known"]))
         elif kind != "mutant":
             mods.append((cid, t, code))
-    # compile everything the model calls clean, in one crate
-    ck.extra["programs"] = len(mods)
+    # the same definitions through generate_with_options, as a build script with options gets them: file header on/off
+    # (tosource), another integer type, a preamble with items of its own
+    omods = []
     if mods:
-        d = write_gencrate([("m%d" % i, code) for i, (cid, t, code) in enumerate(mods)],
+        pick = mods[:(3 if quick else 25)] + mods[-(2 if quick else 10):]
+        combos = [("1", "-", "1"), ("0", "i128", "1"), ("1", "i32", "0"), ("1", "i128", "1"), ("0", "-", "1")]
+        ol = []
+        for j, (cid, t, code) in enumerate(pick):
+            for c_i, (ts_, it, pre) in enumerate(combos if not quick else combos[j % 2::2] + combos[:1]):
+                ol.append(("o%d" % len(ol), t, {"tosource": ts_ == "1", "int_type": None if it == "-" else it, "preamble": pre == "1"}, "geno %s %s %s %s" % (ts_, it, pre, hx(t))))
+        ores = run_lines(harness_bin("h_gen"), ["%s %s" % (nm, ln) for nm, t, o, ln in ol], shards=4, timeout=300)
+        for nm, t, o, ln in ol:
+            ck.case("geno" + ln)
+            ck.count("generate_with_options")
+            r = ores.get(nm, "")
+            if not r.startswith("ok "):
+                ck.failures.append({"what": "generate_with_options failed for a definition generate() accepts", "idl": t[:600], "options": o, "result": r[:200]})
+                continue
+            omods.append((nm, t, o, unhx(r.split(" ")[1]).decode("utf-8")))
+    # compile everything the model calls clean, in one crate
+    ck.extra["programs"] = len(mods) + len(omods)
+    if mods:
+        d = write_gencrate([("m%d" % i, code) for i, (cid, t, code) in enumerate(mods)] + [(nm, code) for nm, t, o, code in omods],
                            macro_mods=[("mac%d" % i, mods[i][1]) for i in range(min(3, len(mods)))])
         rc, log = cargo(d, ["check", "--lib", "--quiet"])
         if rc != 0:
             bad_mods = failing_modules(log)
             if not bad_mods:
                 ck.failures.append({"what": "cargo check of the generated modules failed", "log": log[-1500:]})
-            for bm in bad_mods[:5]:
+            for bm in [b for b in bad_mods if b.startswith("o")][:5]:
+                nm, t, o, code = [x for x in omods if x[0] == bm][0]
+                errs = re.findall(r"(error[^\n]*)\n\s*--> src/%s\.rs" % bm, log)[:3]
+                ck.failures.append({"what": "Rust emitted by generate_with_options does not compile for a definition whose generate() output does",
+                                    "idl": t[:1500], "options": o, "rustc": errs})
+            for bm in [b for b in bad_mods if b.startswith("m")][:5]:
                 i = int(bm[1:])
                 errs = re.findall(r"(error[^\n]*)\n\s*--> src/%s\.rs" % bm, log)[:3]
                 ck.failures.append({"what": "emitted Rust does not compile for a definition outside the known classes",
@@ -342,7 +366,7 @@ def c09(ck):
                 got = unhx(f["got"]).decode("utf-8", "replace") if "got" in f else ""
                 want = unhx(f["want"]).decode("utf-8", "replace") if "want" in f else ""
                 k = next((j for j in range(min(len(got), len(want))) if got[j] != want[j]), min(len(got), len(want)))
-                ck.failures.append({"what": "the file the build-script helper cargo_build() leaves in OUT_DIR is not the code generate() emits for the definition it was run on"
+                ck.failures.append({"what": "the file the build-script helper %s() leaves behind is not the code generate() emits for the definition it was run on" % f.get("helper", "cargo_build")
                                             + (" (the same file name was built from another definition before)" if len(pr) > 1 else ""),
                                     "built_before": pr[0][:600] if len(pr) > 1 else None, "idl": pr[-1][:600], "result": r[:60],
                                     "first_difference_at": k, "file_len": len(got), "expected_len": len(want), "file_there": got[k:k + 200]})
@@ -481,7 +505,8 @@ def c08(ck):
                 args = {f: c08gen.gen_value(rng, t, c.env) for f, t in fs}
                 # an unset optional parameter may be sent as absent
                 send = {k: v for k, v in args.items() if not (v is None and dict(fs)[k][0] == "option" and rng.random() < 0.5)}
-                mode = rng.choice(["call", "call", "more", "oneway"]) if kind == "echo" else "call"
+                # (failing methods too are called in every mode: a oneway call gets no answer, whatever the implementation replies)
+                mode = rng.choice(["call", "call", "more", "oneway"]) if kind == "echo" else rng.choice(["call", "call", "more", "oneway"])
                 cid = "v%d" % n
                 n += 1
                 lines.append("%s call %s %s %s %s" % (cid, mod, mname, mode, hx(json.dumps(send, ensure_ascii=False))))
